@@ -75,6 +75,23 @@ def replay_sht(data):
         if not np.allclose(got, c, rtol=0, atol=1e-10):
             k = int(np.argmax(np.abs(got - c)))
             bad.append("L=%d: complex analysis of sum c_lm Y_lm does not return c (worst index %d: %.4g vs %.4g)" % (L, k, abs(got[k]), abs(c[k])))
+        # linear at every scale: analysis(a f) = a analysis(f) for tiny and huge a, complex a included (a function whose imaginary
+        # part is small in absolute terms is still a complex function), and for a real function with a tiny imaginary harmonic
+        for a in (1e-9, 1e-13, 1e7, 1e-9j, 1e-10 * (1 + 2j)):
+            ga = sht.analysis(a * f)
+            if ga.shape != got.shape or not np.allclose(ga, a * c, rtol=0, atol=1e-10 * abs(a)):
+                bad.append("L=%d: analysis(a f) != a analysis(f) for a = %s (max deviation %.3g of |a|)" % (L, a, np.abs(ga - a * c).max() / abs(a) if ga.shape == got.shape else -1))
+                break
+        if L >= 1:
+            fre = np.zeros(theta.shape, dtype=complex)
+            cre = np.zeros(sht.nlm(), dtype=complex)
+            for l in range(L + 1):
+                cre[l * (l + 1)] = 1.0 + 0.25 * l
+                fre += cre[l * (l + 1)] * sph_harm_y(l, 0, theta, phi)
+            cre[2] += 1e-9j
+            gi = sht.analysis(fre + 1e-9j * sph_harm_y(1, 0, theta, phi))
+            if gi.shape != cre.shape or not np.allclose(gi.real, cre.real, rtol=0, atol=1e-10) or not np.allclose(gi.imag, cre.imag, rtol=0, atol=1e-11):
+                bad.append("L=%d: a real function plus 1e-9 i Y_10 is analysed without its imaginary coefficient (%.3g instead of 1e-9)" % (L, gi[2].imag if gi.shape == cre.shape else -1))
         held = got.copy()
         sht.analysis(f * 0.5 + 1.0)
         sht.analysis((f * 0.5 + 1.0).real)
@@ -159,6 +176,13 @@ def run(ctx):
                "holds" if not lb else "counterexample", nontrivial=True, method="ground instances")
     if lb:
         ctx.violation("sht:legendre-high", lb[0], {"legendre": True}, replay_sht)
+    # floating-point side of linearity / round trip at very small and very large scales (the symbolic round trip is exact
+    # arithmetic on [-1,1]^n and goes inconclusive when the transform branches on the size of its input)
+    rs, dets = replay_sht({"L": [1, 2, 5, 8, 16]})
+    ctx.record("real API: analysis, synthesis, point-wise evaluation and linearity at scales 1e-13..1e7 (complex factors included) for L = 1, 2, 5, 8, 16",
+               "counterexample" if rs else "holds", nontrivial=True, method="ground instances")
+    if rs:
+        ctx.violation("sht:scales", dets[0], {"L": [1, 2, 5, 8, 16]}, replay_sht)
     ctx.parallel_sections([("grid", lambda c: part_grid(c, thorough)), ("legendre", lambda c: part_legendre(c, thorough)),
                            ("kernels", lambda c: part_kernels(c, thorough)), ("roundtrip", lambda c: part_roundtrip(c, thorough)),
                            ("pointwise", lambda c: part_pointwise(c, thorough))])
